@@ -23,7 +23,6 @@ from qtoggleserver.core.typing import (
     NullablePortValue,
     PortValue,
 )
-from qtoggleserver.slaves import devices as slaves_devices
 from qtoggleserver.slaves import ports as slaves_ports
 from qtoggleserver.utils import asyncio as asyncio_utils
 from qtoggleserver.utils import json as json_utils
@@ -234,11 +233,9 @@ async def put_ports(request: core_api.APIRequest, params: GenericJSONList) -> No
             virtual = attrs.get('virtual')
             if port is not None:  # port already exists so it probably belongs to a slave
                 virtual = False
-            for slave in slaves_devices.get_all():
-                if id_.startswith(f'{slave.get_name()}.'):  # id indicates that port belongs to a slave
-                    virtual = False
-                    break
-            if 'provisioning' in attrs:  # a clear indication that port belongs to a slave
+            # Ports that belong to a slave always carry the provisioning attribute; the id alone does not tell, since a
+            # local virtual port may be called "<slave name>.<something>" as well
+            if 'provisioning' in attrs:
                 virtual = False
 
             if virtual:
